@@ -216,3 +216,100 @@ package fpgo
 //@   ensures same-object: r0 == streamSelf
 //@   ensures out-of-range: index < 0 || index >= old(len(*streamSelf)) ==> *streamSelf == old(*streamSelf) && unchanged(*streamSelf)
 //@   ensures removed: 0 <= index && index < old(len(*streamSelf)) ==> len(*streamSelf) == old(len(*streamSelf))-1 && forall(i, 0, index, (*streamSelf)[i] == old((*streamSelf)[i])) && forall(i, index, len(*streamSelf), (*streamSelf)[i] == old((*streamSelf)[i+1]))
+
+// ===================================================================================================
+// C04 / C05 - MapSetDef (a map behind the SetDef interface): operations that "change" a set return a fresh map - the receiver's
+// map is never written (frame) - whose keys and values are the definition's; with nothing to do they return the receiver itself.
+// MSR(v) = the map behind a SetDef value v whose dynamic type is *MapSetDef.
+//@ define MSR(v) = *asptr(v, MapSetDef)
+//@ define MS_FRESH(v) = isptr(v, MapSetDef) && asptr(v, MapSetDef) != nil && fresh(asptr(v, MapSetDef)) && fresh(MSR(v)) && MSR(v) != nil
+
+//@ func (MapSetDef).AsMap
+//@   prop C04,C05
+//@   requires mapSetSelf != nil
+//@   ensures def: r0 == *mapSetSelf
+//@ func (MapSetDef).AsMapSet
+//@   prop C04,C05
+//@   ensures def: r0 == mapSetSelf
+//@ func (MapSetDef).Size
+//@   prop C04,C05
+//@   requires mapSetSelf != nil
+//@   ensures def: r0 == len(*mapSetSelf)
+//@ func (MapSetDef).ContainsKey
+//@   prop C04,C05
+//@   requires mapSetSelf != nil
+//@   ensures def: r0 == has(*mapSetSelf, input)
+//@ func (MapSetDef).Get
+//@   prop C04,C05
+//@   requires mapSetSelf != nil
+//@   ensures def: r0 == (*mapSetSelf)[key]
+
+//@ func (MapSetDef).Clone
+//@   prop C04,C05
+//@   requires mapSetSelf != nil
+//@   ensures copy: MS_FRESH(r0) && forallv(x, has(MSR(r0), x) == has(*mapSetSelf, x)) && forallv(x, has(*mapSetSelf, x) ==> MSR(r0)[x] == (*mapSetSelf)[x])
+
+//@ func (MapSetDef).Add
+//@   prop C04,C05
+//@   requires mapSetSelf != nil
+//@   ensures nothing-to-add: len(input) == 0 ==> r0 == boxed(mapSetSelf)
+//@   ensures fresh-result: len(input) > 0 ==> MS_FRESH(r0)
+//@   ensures keys: len(input) > 0 ==> forallv(x, has(MSR(r0), x) == (has(*mapSetSelf, x) || exists(i, 0, len(input), input[i] == x)))
+//@   ensures old-values-kept: len(input) > 0 ==> forallv(x, has(*mapSetSelf, x) ==> MSR(r0)[x] == (*mapSetSelf)[x])
+//@   ensures new-values-zero: len(input) > 0 ==> forallv(x, !has(*mapSetSelf, x) && has(MSR(r0), x) ==> MSR(r0)[x] == zeroof((*mapSetSelf)[x]))
+//@ func (MapSetDef).Add loop 0
+//@   invariant result: MS_FRESH(result)
+//@   invariant keys: forallv(x, has(MSR(result), x) == (has(*mapSetSelf, x) || exists(i, 0, _i, input[i] == x)))
+//@   invariant old-values-kept: forallv(x, has(*mapSetSelf, x) ==> MSR(result)[x] == (*mapSetSelf)[x])
+//@   invariant new-values-zero: forallv(x, !has(*mapSetSelf, x) && has(MSR(result), x) ==> MSR(result)[x] == zeroof((*mapSetSelf)[x]))
+
+//@ func (MapSetDef).RemoveKeys
+//@   prop C04,C05
+//@   requires mapSetSelf != nil
+//@   ensures nothing-to-remove: len(input) == 0 ==> r0 == boxed(mapSetSelf)
+//@   ensures fresh-result: len(input) > 0 ==> MS_FRESH(r0)
+//@   ensures keys: len(input) > 0 ==> forallv(x, has(MSR(r0), x) == (has(*mapSetSelf, x) && !exists(i, 0, len(input), input[i] == x)))
+//@   ensures values-kept: len(input) > 0 ==> forallv(x, has(MSR(r0), x) ==> MSR(r0)[x] == (*mapSetSelf)[x])
+//@ func (MapSetDef).RemoveKeys loop 0
+//@   invariant result: MS_FRESH(result)
+//@   invariant keys: forallv(x, has(MSR(result), x) == (has(*mapSetSelf, x) && !exists(i, 0, _i, input[i] == x)))
+//@   invariant values-kept: forallv(x, has(MSR(result), x) ==> MSR(result)[x] == (*mapSetSelf)[x])
+
+//@ func (MapSetDef).Set
+//@   prop C04,C05
+//@   modifies *mapSetSelf
+//@   requires mapSetSelf != nil && *mapSetSelf != nil
+//@   ensures stored: has(*mapSetSelf, key) && (*mapSetSelf)[key] == value && forallv(x, x != key ==> has(*mapSetSelf, x) == old(has(*mapSetSelf, x)) && (*mapSetSelf)[x] == old((*mapSetSelf)[x]))
+
+//@ func (MapSetDef).Minus
+//@   prop C04,C05
+//@   opt dispatch=force
+//@   requires mapSetSelf != nil && (untyped(input) || isptr(input, MapSetDef) && asptr(input, MapSetDef) != nil)
+//@   ensures nothing-to-remove: untyped(input) || len(MSR(input)) == 0 ==> r0 == boxed(mapSetSelf)
+//@   ensures fresh-result: !untyped(input) && len(MSR(input)) > 0 ==> MS_FRESH(r0)
+//@   ensures keys: !untyped(input) && len(MSR(input)) > 0 ==> forallv(x, has(MSR(r0), x) == (has(*mapSetSelf, x) && !has(MSR(input), x)))
+//@   ensures values-kept: !untyped(input) && len(MSR(input)) > 0 ==> forallv(x, has(MSR(r0), x) ==> MSR(r0)[x] == (*mapSetSelf)[x])
+//@ func (MapSetDef).Minus loop 0
+//@   invariant result: MS_FRESH(result) && MSR(result) == _m
+//@   invariant keys: forallv(x, has(MSR(result), x) == (has(*mapSetSelf, x) && !(_visited(x) && has(MSR(input), x))))
+//@   invariant iterating-the-copy: forall(j, 0, _n, has(*mapSetSelf, _keyat(j)))
+//@   invariant values-kept: forallv(x, has(MSR(result), x) ==> MSR(result)[x] == (*mapSetSelf)[x])
+
+//@ func (MapSetDef).Union
+//@   prop C04,C05
+//@   opt dispatch=force
+//@   requires mapSetSelf != nil && (untyped(input) || isptr(input, MapSetDef) && asptr(input, MapSetDef) != nil)
+//@   ensures nothing-to-add: untyped(input) || len(MSR(input)) == 0 ==> r0 == boxed(mapSetSelf)
+//@   ensures fresh-result: !untyped(input) && len(MSR(input)) > 0 ==> MS_FRESH(r0)
+//@   ensures keys: !untyped(input) && len(MSR(input)) > 0 ==> forallv(x, has(MSR(r0), x) == (has(*mapSetSelf, x) || has(MSR(input), x)))
+//@   ensures values: !untyped(input) && len(MSR(input)) > 0 ==> forallv(x, (has(MSR(input), x) ==> MSR(r0)[x] == MSR(input)[x]) && (has(*mapSetSelf, x) && !has(MSR(input), x) ==> MSR(r0)[x] == (*mapSetSelf)[x]))
+
+//@ func SetFromMap
+//@   prop C04,C05
+//@   ensures wraps: r0 != nil && fresh(r0) && *r0 == theMap
+//@ func SetFromArray
+//@   prop C04,C05
+//@   ensures made: r0 != nil && fresh(r0) && fresh(*r0) && forallv(x, has(*r0, x) == exists(i, 0, len(list), list[i] == x))
+//@ func SetFrom
+//@   prop C04,C05
+//@   ensures made: r0 != nil && fresh(r0) && fresh(*r0) && forallv(x, has(*r0, x) == exists(i, 0, len(list), list[i] == x))
